@@ -826,6 +826,21 @@ func producerOf(v ssa.Value, depth int) *ssa.Call {
 		}
 	case *ssa.Slice:
 		return producerOf(x.X, depth+1)
+	case *ssa.Alloc:
+		// local copy of an element (range variable whose address is taken)
+		if refs := x.Referrers(); refs != nil {
+			for _, r := range *refs {
+				if st, ok := r.(*ssa.Store); ok && st.Addr == x {
+					if c := producerOf(st.Val, depth+1); c != nil {
+						return c
+					}
+				}
+			}
+		}
+	case *ssa.FieldAddr:
+		return producerOf(x.X, depth+1)
+	case *ssa.Field:
+		return producerOf(x.X, depth+1)
 	}
 	return nil
 }
